@@ -135,3 +135,23 @@ TEXT['C20'].update(
     level_note='Model: a non-None expiry is a datetime compared with a symbolic today; f is an uninterpreted function of the row. Callee contracts: row iteration (C01), '
                'Dict.__getitem__(callable) (C16). Two obligations are syntactic (run_expiry feeds the gate; a single evaluation site of f).',
     technique='contract-based deductive verification (AST-generated VCs, z3/cvc5) + bounded run-time contract check')
+
+PROPS['C07'].update(level='other', explanation='Deductive (counted as proved): the real cmp body on the tagged scalar universe (None, bool, int with |i| <= 2**53, float incl. NaN objects '
+    'of distinct identity and +-inf, str, datetime) and nested tuples/lists by structural induction on depth (cmparr loop contract): never raises, range {-1,0,1}, antisymmetry, '
+    'transitivity, 0 for numerically equal int/float, NaN above every finite number; _has_nan against its recursive spec; sort: permutation, non-decreasing under cmp, never raises, '
+    'given the sorted() axiom (native path guarded by _has_nan, key=Cmp path with the real wrapper class executed); dictable.sort: one bijection permutes every column, rows ordered by '
+    'key under cmp, ties keep their original order, idempotence lemmas. Bounded only: cmp on dicts and numpy scalars, explicit value orders (**byval), the 56 + 102 value universes.')
+TEXT['C07'].update(
+    level_text='Mixed: the order laws and the sort / dictable.sort contracts are proved for the dict-free, numpy-free universe from the real AST; dicts, numpy scalars and the '
+               'byval branch are bounded, and sort rests on an axiom for the sorted() builtin - hence "other".',
+    level_note='Axioms (validated against CPython on every run): ==, < and its TypeError definedness on the scalar universe, tuple/list comparison, type-name order by str(type(x)); '
+               'the sorted() axiom; as_primitive is the identity on the universe; structural induction over nesting depth. Known finding: ints beyond the float range.',
+    technique='contract-based deductive verification (AST-generated VCs over a tagged value universe, structural induction, z3/cvc5) + bounded run-time contract check')
+PROPS['C14'].update(level='other', explanation='Deductive (counted as proved): the real eq body (with _eq_attrs inlined) and in_ on the numpy-free universe (None, bool, int, float/NaN/+-inf, str, '
+    'datetime, nested list/tuple) against the recursive spec EQ: never raises, returns a boolean, False when container types differ, NaN equals NaN, identical objects equal, '
+    'int equals a numerically equal float; EQ is reflexive, symmetric, transitive (structural induction), agrees with == on NaN-free values, and a structural copy holding different NaN '
+    'objects is equal. Bounded only: dicts, numpy arrays and scalars, Series / DataFrames, partial, Timestamp / datetime64.')
+TEXT['C14'].update(
+    level_text='Mixed: the equivalence laws are proved on the numpy-free universe; everything involving numpy / pandas / dicts is covered by the bounded stand-in only - hence "other".',
+    level_note='Axioms validated against CPython on every run (==, container ==); structural induction over nesting depth is trusted. Known finding: transitivity among date types.',
+    technique='contract-based deductive verification (AST-generated VCs over a tagged value universe, structural induction, z3/cvc5) + bounded run-time contract check')
